@@ -22,9 +22,10 @@
 (***************************************************************************)
 EXTENDS HsacoOps
 
-CONSTANTS Kernels,     \* kernel descriptions the environment may add (records, see MC_Hsaco)
+CONSTANTS Kernels,     \* prepared kernel descriptions the environment may add (Prep(k), see MC_Hsaco)
           Layouts,     \* section layouts: [names |-> <<...>>, addrs |-> <<W64...>>]
           Pads,        \* padding (bytes) the environment may put in front of a kernel / descriptor
+          NoiseFront,  \* where an unrelated symbol may go: subset of BOOLEAN (TRUE = in front of all others)
           MaxKernels, MaxNoise, MaxSwapLen
 
 VARIABLES file, truth
@@ -81,6 +82,10 @@ Truth(k) ==
                                                           entry |-> k.s.entry, r3 |-> k.s.r3, r1 |-> k.s.r1,
                                                           r2 |-> k.s.r2]), k.sg, k.vg)]
 
+\* what AddKernel needs of a description, computed once per description (TLC caches constants)
+Prep(k) == [name |-> k.name, kind |-> k.kind, img |-> Image(k), kdb |-> IF k.kind = "v5" THEN MkKD(k.s) ELSE <<>>,
+            sg |-> k.sg, vg |-> k.vg, res |-> Truth(k)]
+
 \* ------------------------------------------------------------------ machine
 Init ==
   /\ \E lay \in Layouts :
@@ -102,7 +107,7 @@ AddKernel(k, front, pad) ==
   /\ \A i \in 1..Len(file.syms) : file.syms[i].name # k.name \o ".kd"    \* no stray descriptor symbol of that name
   /\ k.kind = "v5" => Ri # 0
   /\ LET text == file.secs[Ti]
-         img == Image(k)
+         img == k.img
          ksym == [name |-> k.name, shndx |-> Ti, value |-> Add64(text.addr, Len(text.data) + pad),
                   size |-> W64(Len(img))]
          rod == file.secs[Ri]
@@ -113,9 +118,9 @@ AddKernel(k, front, pad) ==
          group == IF k.kind = "v5" THEN IF front THEN <<kdsym, ksym>> \o msyms ELSE msyms \o <<ksym, kdsym>>
                   ELSE <<ksym>>
          secs1 == [file.secs EXCEPT ![Ti].data = @ \o Filler(pad, 91) \o img]
-         secs2 == IF k.kind = "v5" THEN [secs1 EXCEPT ![Ri].data = @ \o Filler(pad, 17) \o MkKD(k.s)] ELSE secs1
+         secs2 == IF k.kind = "v5" THEN [secs1 EXCEPT ![Ri].data = @ \o Filler(pad, 17) \o k.kdb] ELSE secs1
      IN file' = [file EXCEPT !.secs = secs2, !.syms = Put(front, group)]
-  /\ truth' = [n \in DOMAIN truth \cup {k.name} |-> IF n = k.name THEN [kind |-> k.kind, res |-> Truth(k)] ELSE truth[n]]
+  /\ truth' = [n \in DOMAIN truth \cup {k.name} |-> IF n = k.name THEN [kind |-> k.kind, res |-> k.res] ELSE truth[n]]
 
 (* Symbols that have nothing to do with loading kernel n: a label inside   *)
 (* .text, a sized object in another section, an undefined sized symbol, a  *)
@@ -157,7 +162,7 @@ StripSymtab ==
   /\ UNCHANGED truth
 
 Next == \/ \E k \in Kernels, front \in BOOLEAN, pad \in Pads : AddKernel(k, front, pad)
-        \/ \E s \in NoiseSyms, front \in BOOLEAN : AddNoise(s, front)
+        \/ \E s \in NoiseSyms, front \in NoiseFront : AddNoise(s, front)
         \/ \E i \in 1..MaxSwapLen : Swap(i)
         \/ StripSymtab
 Spec == Init /\ [][Next]_vars
@@ -181,6 +186,6 @@ OthersRefused ==
      /\ Cardinality(KernelSyms(file)) > 1 => Load(file, "") = Refuse("ambiguous")
 AlwaysWellFormed == WellFormed(file)
 TypeOK == /\ file.symtab \in {0, 1}
-          /\ \A i \in 1..Len(file.secs) : \A j \in 1..Len(file.secs[i].data) : file.secs[i].data[j] \in 0..255
-          /\ \A n \in DOMAIN truth : truth[n].res.ver \in {3, 5}
+          /\ \A i \in 1..Len(file.syms) : file.syms[i].shndx \in 0..Len(file.secs) \cup {SHN_ABS}
+          /\ \A n \in DOMAIN truth : truth[n].res.ver \in {3, 5} /\ truth[n].kind \in {"v3", "v5", "raw"}
 =============================================================================
